@@ -47,6 +47,8 @@ type diffEvent struct {
 	Removed  []term `json:"removed"`
 	AddedN   int    `json:"addedn"` // callbacks, to detect repeats that map to the same term
 	RemovedN int    `json:"removedn"`
+	HO       int    `json:"ho"` // heights recorded in the two roots (persisted pairs)
+	HN       int    `json:"hn"`
 	LRes     string `json:"lres"`
 	// a full entry diff / node diff run right after diffs that their callbacks stopped at the first report: "ok" (same result as the
 	// first full run), "bad", or "" (not run)
@@ -681,6 +683,10 @@ func diffCase(id int, seed int64, out *json.Encoder, big bool) {
 		}
 		r.proj.reach(linkOf(newS.root), rn)
 		ev.ReachO, ev.ReachN = len(ro), len(rn)
+		if oldS != nil {
+			ev.HO = int(oldS.root.Height)
+		}
+		ev.HN = int(newS.root.Height)
 		for n := range ro {
 			if !rn[n] {
 				ev.D++
